@@ -312,7 +312,15 @@ func genPbf(repo string) *genFile {
 			flat(x.Body, out)
 			*out = append(*out, "}")
 		case *ast.RangeStmt:
-			*out = append(*out, "for "+exprText(x.Key)+" := range "+p.nodeText(x.X)+" {")
+			h := "for "
+			if x.Key != nil {
+				h += exprText(x.Key)
+				if x.Value != nil {
+					h += ", " + exprText(x.Value)
+				}
+				h += " " + x.Tok.String() + " "
+			}
+			*out = append(*out, h+"range "+p.nodeText(x.X)+" {")
 			flat(x.Body, out)
 			*out = append(*out, "}")
 		case *ast.SelectStmt:
@@ -406,6 +414,7 @@ func genPbf(repo string) *genFile {
 	g.pf("def readBlobHeaderBody : List String := %s\n", leanStrList(flatBody("decoder", "readBlobHeader")))
 	g.pf("def readBlobBody : List String := %s\n", leanStrList(flatBody("decoder", "readBlob")))
 	g.pf("def getDataBody : List String := %s\n", leanStrList(flatBody("", "getData")))
+	g.pf("def decodeOSMHeaderBody : List String := %s\n", leanStrList(flatBody("", "decodeOSMHeader")))
 	g.pf("\ndef scanBody : List String := %s\n", leanStrList(flatBody("Scanner", "Scan")))
 	g.pf("def errBody : List String := %s\n", leanStrList(flatBody("Scanner", "Err")))
 	g.pf("def closeBody : List String := %s\n", leanStrList(flatBody("Scanner", "Close")))
